@@ -435,7 +435,7 @@ static bool check_format(const struct aws_date_time *dt, int64_t t, int r, const
     struct aws_byte_buf buf = aws_byte_buf_from_empty_array(mem, cap);
     buf.len = prefix;
     struct aws_allocator *alloc_before = buf.allocator;
-    aws_reset_error();
+    mon_poison_last_error(&mon_case_rng);
     int rc = lib_format(dt, r, &buf);
     int err = rc ? aws_last_error() : 0;
     ++s_k[K_FORMAT_CALLS];
@@ -521,7 +521,7 @@ static struct parse_out lib_parse(const char *text, size_t n, enum aws_date_form
     struct parse_out o;
     uint8_t *blk = input_block(text, n);
     memset(dt, 0xA5, sizeof(*dt));
-    aws_reset_error();
+    mon_poison_last_error(&mon_case_rng);
     ++s_k[K_PARSE_CALLS];
     if ((s_k[K_PARSE_CALLS] & 1) != 0) {
         struct aws_byte_cursor cur = aws_byte_cursor_from_array(blk, n);
